@@ -31,6 +31,17 @@
 // Every Close is judged at the instant of its return as well (every accepted socket closed), also when it is called
 // while handlers tear their connections down (ctl.go genCtlCloseDuring); on TLS listeners that is the known finding F53
 // (crypto/tls answers a second Close at once: the socket of a handler inside tls.Conn.Close outlives Proxy.Close).
+// A sixth dimension (held.go): WHICH sockets a return speaks about. One connection of the ctl / runend cases is "accept
+// held" — the listener returns it from Accept only once closing is known, so that its handler comes to connsMu after
+// Shutdown / Close took it —: a nil of Shutdown, a return of Close or of Run is judged on the sockets the proxy had used
+// (hence registered) when the call was issued, the others ("accepted in the meantime") must be closed without service.
+// A seventh (group.go): the layer above Run. The proxy is hosted as command/run hosts it — runctx.NewGroup(proxy.Run,
+// a companion that returns at once, one that drains slowly).RunContext, NotifySignals = ShutdownSignals —, the shutdown
+// requested by ONE real signal to the hosting process or by cancellation with exchanges in flight, the drain ended by
+// itself / a second signal / the timeout; the returns of Run, of the companions and of RunContext are events of the
+// history (Model/C11Group.lean). And the rig tells its own traffic from a stranger's (stray.go): the origin accepts a
+// request only under the case's own host name and request index, a connection on the proxy's listener that nobody of
+// the case made makes the case inconclusive, and every sixth general case has a stranger at its origin.
 package c11
 
 import (
@@ -71,6 +82,19 @@ type Case struct {
 	SigCase bool      `json:"sig_case,omitempty"` // ShutdownSignals of the proxy / API server = Signals (possibly EMPTY); false: rig a family runend {SIGUSR1}, everything else the defaults
 	Signals []int     `json:"signals,omitempty"`  // the configured set, as signal numbers
 	Deliver []SigStep `json:"deliver,omitempty"`  // signals sent to the hosting process once the run context is cancelled
+	// Stray (stray.go): while the case runs, a client that is NOT part of it — the late dial of somebody else's case that
+	// finds this case's origin (or upstream proxy) on a re-used port — sends requests "for connections 0..n-1" to the case's
+	// origin: the rig must not attribute them to the case's connections
+	Stray bool `json:"stray,omitempty"`
+	// Host (group.go; rig a): "" = HTTPProxy.Run is called directly with a cancellable context; "group" = the proxy is hosted
+	// the way command/run hosts it: runctx.NewGroup(proxy.Run, companions…).RunContext with NotifySignals = the proxy's
+	// ShutdownSignals. Begin: "" = the shutdown is requested by cancelling the context; "signal" = by ONE operating-system
+	// signal of that set delivered to the hosting process (then End "signal" means a SECOND one)
+	Host  string `json:"host,omitempty"`
+	Begin string `json:"begin,omitempty"`
+	// Members (Host "group"): the companions of the proxy in the group: each returns MemberMs[i] after the group's
+	// context is done (0: at once, like the API server with nothing to drain)
+	MemberMs []int `json:"member_ms,omitempty"`
 	// rig "c" (micro.go): Trials tiny shutdowns over an in-memory listener, parameters drawn from MicroSeed
 	Trials    int    `json:"trials,omitempty"`
 	MicroSeed uint64 `json:"micro_seed,omitempty"`
@@ -108,6 +132,10 @@ type ConnScript struct {
 	// the proxy's side of this connection's socket (families ctl, runend: the listener wraps what it accepts, ctl.go trackConn)
 	CloseMs int `json:"close_ms,omitempty"` // Close takes this long to return; the socket stays open meanwhile
 	StallMs int `json:"stall_ms,omitempty"` // TLS listener: the peer is not reading when the close_notify is due; the record waits this long (or until crypto/tls's write deadline)
+	// AcceptHeld (phase idle, families ctl / runend; held.go): the connection is made once every other script has reached its
+	// phase, and the tracking listener HOLDS the return of the Accept that delivers it until the shutdown has begun and
+	// closing is known (Shutdown / Close has taken connsMu): its handleLoop goroutine comes to the registration only then
+	AcceptHeld bool `json:"accept_held,omitempty"`
 }
 
 func (c *Case) key() string { b, _ := json.Marshal(c); return string(b) }
